@@ -6,6 +6,7 @@ import (
 	"github.com/relex/slog-agent/base"
 	"github.com/relex/slog-agent/defs"
 	"github.com/relex/slog-agent/util"
+	"github.com/relex/slog-agent/util/vhook"
 )
 
 // outputFeeder fetches chunks to be processed from bufferer.inputChannel (the persistent queue), loads their contents
@@ -88,6 +89,7 @@ func (feeder *outputFeeder) Run() {
 	// clean up
 	close(feeder.outputChannel)
 	feeder.outputClosed.Signal()
+	vhook.At("buffer.feeder.beforeSave")
 	feeder.saveEverything(lastInputChunk)
 
 	// wait for consumers here because the callbacks depend on chunkMan/dir
@@ -118,6 +120,7 @@ func (feeder *outputFeeder) loadToOutput(chunk base.LogChunk) bool {
 		return true
 	}
 
+	vhook.At("buffer.feeder.beforeOutput")
 	select {
 	case feeder.outputChannel <- chunk: // wait forever here, this ultimately causes chunks to bufferer to be unloaded
 		return true
